@@ -244,6 +244,9 @@ class SegmentTensor(PolytopeTensor):
         result = self._line.contains(other)
 
         m = self.normalized_array
+        if np.issubdtype(m.dtype, np.integer):
+            # the comparison below multiplies eight coordinates: integer arithmetic would overflow for coordinates of a few hundred
+            m = m.astype(np.float64)
         arr = matmul(m, m, transpose_b=True)
 
         b = arr[..., 0]
